@@ -419,3 +419,195 @@ FUNCS = {
               'scenarios': {'given-n': {}, 'default-n': {'n': False}},
               'on_outcomes': jnrm2_outcomes},
 }
+
+
+# ------------------------------------------------------------------- ssqr
+# x := y o y (the 's' parts diagonal):  copy(y, x); componentwise square of
+# the first mnl + l entries (tbmv with the diagonal band y); for every 'q'
+# block k at B_k = mnl + l + sum_{j<k} q_j:  x[B_k] = ||y_k||^2,
+# x[B_k+1 : B_k+q_k] *= 2 y[B_k];  componentwise square of the sum(s)
+# diagonal entries at B_end.  The obligations are generated at the calls
+# (the loop body's states are summarised by the invariant rule).
+def _ssqr_terms(ex, st, fid):
+    from contracts.py.extern_cvxopt import psum_fn
+    a = st.ghost['args']
+    d = st.heap[a['dims'].oid].f['items']
+    Sq = psum_fn(ex, st, d['q'])
+    return a, d, Sq
+
+
+def ssqr_setup(sc):
+    def setup(ex, st, fid, fn):
+        fr = common(ex, st, fid)
+        fr['x'] = CS.input_matrix(ex, st, 'x', ncols=1)
+        fr['y'] = CS.input_matrix(ex, st, 'y', ncols=1)
+        fr['dims'] = CS.input_dims(ex, st)
+        fr['mnl'] = I(z3.Int('mnl'))
+        st.ghost['args'] = dict(fr)
+        st.ghost['ssqr'] = fid
+        st.ghost['seq'] = ()
+    return setup
+
+
+def ssqr_loop_matcher(ex, s):
+    return ex.fname == 'ssqr' and isinstance(s, ast.For) and \
+        "dims['q']" in ast.unparse(s.iter)
+
+
+class SsqrInv:
+    def __call__(self, ex, st, fid, k, it):
+        a, d, Sq = _ssqr_terms(ex, st, fid)
+        ind = st.frames[fid].get('ind')
+        t = ind.t if isinstance(ind, I) else (z3.IntVal(ind) if isinstance(
+            ind, int) else None)
+        if t is None:
+            return [('ind is an integer', z3.BoolVal(False))]
+        kk = k if z3.is_expr(k) else z3.IntVal(k)
+        return [('ind = mnl + l + sum of the first k entries of q',
+                 t == a['mnl'].t + d['l'].t + Sq(kk))]
+
+
+L.loop_invariants.setdefault('*', []).append((ssqr_loop_matcher, SsqrInv()))
+
+_prev2 = L.hooks.get('pre_call')
+
+
+def ssqr_pre_call(ex, st, name, args, kwargs, n):
+    if _prev2:
+        _prev2(ex, st, name, args, kwargs, n)
+    fid = st.ghost.get('ssqr')
+    if fid is None or getattr(ex, 'fname', '') != 'ssqr' or \
+            name.startswith('builtins.') or name == 'math.sqrt':
+        return
+    a, d, Sq = _ssqr_terms(ex, st, fid)
+    short = name.split('.')[-1]
+    seq = st.ghost.get('seq', ())
+    st.ghost['seq'] = seq + (short,)
+    ks = [v for k_, v in st.ghost.items() if isinstance(k_, tuple) and k_ and
+          k_[0] == 'loopidx']
+    c = (name, list(args), dict(kwargs), n.lineno)
+    base0 = a['mnl'].t + d['l'].t
+
+    def ob(goal, text):
+        if isinstance(goal, bool):
+            goal = z3.BoolVal(goal)
+        ex.oblige(st, 'kernel-definition', goal, n, text,
+                  extra={'prop': 'C08'})
+
+    def is_(v, w):
+        r = same(ex, st, v, w)
+        return z3.BoolVal(r) if isinstance(r, bool) else r
+    if short == 'copy':
+        ob(z3.And(is_(argval(c, 0, 'x'), a['y']),
+                  is_(argval(c, 1, 'y'), a['x'])) if len(seq) == 0 else
+           False, 'ssqr starts with blas.copy(y, x)')
+    elif short == 'tbmv' and 'tbmv' not in seq:
+        ob(z3.And(is_(argval(c, 0, 'A'), a['y']),
+                  is_(argval(c, 1, 'x'), a['x']),
+                  is_(kwargs.get('n'), I(base0)), is_(kwargs.get('k'), 0),
+                  is_(kwargs.get('ldA'), 1)),
+           'ssqr squares the first mnl + l entries: blas.tbmv(y, x, n = mnl '
+           '+ l, k = 0, ldA = 1)')
+    elif short == 'nrm2':
+        if not ks:
+            ob(False, 'blas.nrm2 is called inside the loop over q')
+            return
+        B = base0 + Sq(ks[-1])
+        qk = st.heap[d['q'].oid].f['elem'][1](ks[-1])
+        ob(z3.And(is_(argval(c, 0, 'x'), a['y']),
+                  is_(kwargs.get('offset'), I(B)),
+                  is_(kwargs.get('n'), I(qk))),
+           'for q block k: blas.nrm2(y, offset = B_k, n = q_k), B_k = mnl + '
+           'l + q_0 + ... + q_(k-1)')
+    elif short == 'scal':
+        if not ks:
+            ob(False, 'blas.scal is called inside the loop over q')
+            return
+        B = base0 + Sq(ks[-1])
+        qk = st.heap[d['q'].oid].f['elem'][1](ks[-1])
+        yb = [v for i_, v in reads_of(st, a['y'], None) if ex.check(
+            st.pc, [i_ != B]) == z3.unsat]
+        al = argval(c, 0, 'alpha')
+        fm = z3.Function('fmul', z3.RealSort(), z3.RealSort(),
+                         z3.RealSort())
+        okal = isinstance(al, R) and len(yb) >= 1 and any(
+            z3.eq(al.t, fm(z3.RealVal(2), v)) or ex.check(
+                st.pc, [al.t != 2 * v]) == z3.unsat for v in yb)
+        ob(z3.And(is_(argval(c, 1, 'x'), a['x']),
+                  is_(kwargs.get('n'), I(qk - 1)),
+                  is_(kwargs.get('offset'), I(B + 1)), z3.BoolVal(okal)),
+           'for q block k: blas.scal(2*y[B_k], x, n = q_k - 1, offset = B_k '
+           '+ 1)')
+    elif short == 'tbmv':
+        ql = st.heap[d['q'].oid].f['len'].t
+        Bend = base0 + Sq(ql)
+        from contracts.py.extern_cvxopt import psum_fn
+        Ss = psum_fn(ex, st, d['s'])
+        sl = st.heap[d['s'].oid].f['len'].t
+        ob(z3.And(is_(argval(c, 0, 'A'), a['y']),
+                  is_(argval(c, 1, 'x'), a['x']),
+                  is_(kwargs.get('n'), I(Ss(sl))), is_(kwargs.get('k'), 0),
+                  is_(kwargs.get('ldA'), 1),
+                  is_(kwargs.get('offsetA'), I(Bend)),
+                  is_(kwargs.get('offsetx'), I(Bend))),
+           'ssqr squares the sum(s) diagonal entries behind the q blocks: '
+           'blas.tbmv(y, x, n = sum(s), k = 0, ldA = 1, offsetA = offsetx = '
+           'mnl + l + sum(q))')
+    else:
+        ob(False, 'ssqr calls only copy, tbmv, nrm2, scal (%s)' % short)
+
+
+L.hooks['pre_call'] = ssqr_pre_call
+_prev_w = L.hooks.get('matrix_setitem')
+
+
+def ssqr_setitem(ex, st, base, idx, v, s):
+    if _prev_w:
+        _prev_w(ex, st, base, idx, v, s)
+    fid = st.ghost.get('ssqr')
+    if fid is None or getattr(ex, 'fname', '') != 'ssqr':
+        return
+    a, d, Sq = _ssqr_terms(ex, st, fid)
+    ks = [v_ for k_, v_ in st.ghost.items() if isinstance(k_, tuple) and k_
+          and k_[0] == 'loopidx']
+    ok = z3.BoolVal(False)
+    if ks and isinstance(base, Ref) and base.oid == a['x'].oid and \
+            isinstance(idx, I) and isinstance(v, R):
+        B = a['mnl'].t + d['l'].t + Sq(ks[-1])
+        ok = z3.And(idx.t == B, z3.BoolVal('nrm2!' in str(v.t)))
+    ex.oblige(st, 'kernel-definition', ok, s,
+              'for q block k: x[B_k] = blas.nrm2(...)**2 is the only element '
+              'store of ssqr', extra={'prop': 'C08'})
+
+
+L.hooks['matrix_setitem'] = ssqr_setitem
+
+
+def ssqr_outcomes(ex, outs):
+    nret = 0
+    for o in outs:
+        if o.kind != 'return':
+            oblige(ex, o.st, 'kernel-definition', False,
+                   'ssqr returns normally (%s)' % (o.val,))
+            continue
+        nret += 1
+        seq = o.st.ghost.get('seq', ())
+        oblige(ex, o.st, 'kernel-definition',
+               seq[:2] == ('copy', 'tbmv') and seq[-1:] == ('tbmv',) and
+               seq.count('tbmv') == 2 and seq.count('copy') == 1,
+               'ssqr makes the calls copy, tbmv, [loop over q], tbmv on the '
+               'path outside the loop (%s)' % (seq,))
+    fn = ex.find_function('ssqr')
+    loops = [s for s in fn.body if isinstance(s, ast.For)]
+    body_calls = [ast.unparse(x.func) for s in loops for x in ast.walk(s)
+                  if isinstance(x, ast.Call)]
+    oblige(ex, outs[0].st, 'kernel-definition',
+           len(loops) == 1 and body_calls.count('blas.nrm2') == 1 and
+           body_calls.count('blas.scal') == 1,
+           'the loop over q contains one blas.nrm2 and one blas.scal call')
+    oblige(ex, outs[0].st, 'covered', nret >= 1, 'ssqr returns')
+    return {'paths': len(outs)}
+
+
+FUNCS['ssqr'] = {'setup': ssqr_setup, 'scenarios': {'any': {}},
+                 'on_outcomes': ssqr_outcomes}
